@@ -47,7 +47,12 @@ const (
 var c56WireName = []string{"well-formed", "malformed", "count-lie", "trailing-bytes", "odd-pointer"}
 
 // c56SkipName returns the offset after the name at off, or -1 (malformed), -2 (odd pointer).
-func c56SkipName(m []byte, off int) int {
+func c56SkipName(m []byte, off int) int { return c56SkipNameDepth(m, off, 0) }
+
+func c56SkipNameDepth(m []byte, off int, depth int) int {
+	if depth > len(m) {
+		return -1 // more pointer hops than bytes: the name loops and never terminates
+	}
 	for {
 		if off >= len(m) {
 			return -1
@@ -77,7 +82,7 @@ func c56SkipName(m []byte, off int) int {
 				return -2
 			}
 			// the target must itself be a walkable name
-			if t := c56SkipName(m, ptr); t < 0 {
+			if t := c56SkipNameDepth(m, ptr, depth+1); t < 0 {
 				return t
 			}
 			return off + 2
@@ -704,9 +709,12 @@ func c56Check(tb ev.TB, rec *ev.Rec, c *c56Case) {
 		wantFam, wantMask = 1, 32
 	}
 	if s.Family != wantFam || s.SourceNetmask != wantMask {
-		key := "ecs-family-v6-client"
+		key := "ecs-mismatch-v6-client"
 		if isV4 {
-			key = "ecs-family-v4-client"
+			key = "ecs-mismatch-v4-client"
+			if s.Family == 2 && s.SourceNetmask == 128 {
+				key = "ecs-v4-client-family2-128" // the IPv4 client is described as an IPv6 host
+			}
 		}
 		if fail(key, "client %s (%s, %d-byte IP): subnet option has family %d /%d address %v, want family %d /%d", c.ClientIP, c.ClientForm, len(eff), s.Family, s.SourceNetmask, s.Address, wantFam, wantMask) {
 			return
